@@ -111,6 +111,47 @@ def check_scalar_map(ctx, clause, fi, var, label, **kw):
     return y, J, x, S
 
 
+def _map_paths(f, inputs, outputs, alias=None, positive=False, passthrough=()):
+    """[(values finally stored into `outputs` (sympy, None if not stored), total change of log_j)] for every normal path
+    through f, from the path summaries (earlier stores are substituted into later reads of the same field)."""
+    from ..summ import summarise
+
+    alias = alias or {}
+    out = []
+    for pa in summarise(f.node):
+        if pa.end == "raise":
+            continue
+        vals = {}
+        zero = sym.sp.Integer(0)
+
+        class _PT(ast.NodeTransformer):
+            # `x, x_prime, log_j = self.<hook>(x, x_prime, log_j)`: a composition hook whose own map is decided separately;
+            # here its k-th result is its k-th argument
+            def visit_Subscript(self, n_):
+                self.generic_visit(n_)
+                if isinstance(n_.slice, ast.Constant) and isinstance(n_.slice.value, int) and isinstance(n_.value, ast.Call) and isinstance(n_.value.func, ast.Attribute) and n_.value.func.attr in passthrough and src(n_.value.func.value) == "self" and n_.slice.value < len(n_.value.args):
+                    return n_.value.args[n_.slice.value]
+                return n_
+
+        def conv(e_):
+            import copy as _cp
+
+            e_ = _PT().visit(_cp.deepcopy(e_))
+            sb = {**inputs, **vals, "log_j": zero}
+            for a_, b_ in alias.items():
+                if b_ in sb:
+                    sb[a_] = sb[b_]
+            return sym.Sym(subst=sb, positive=positive).conv(e_)
+
+        for eff in pa.effects:
+            if eff[0] == "store":
+                t_ = src(eff[1])
+                vals[alias.get(t_, t_)] = conv(eff[2])
+        J = conv(pa.env["log_j"]) if "log_j" in pa.env else zero
+        out.append(([vals.get(o_) for o_ in outputs], J))
+    return out
+
+
 def run(ctx):
     prog = ctx.prog
     res = resolver(prog)
@@ -298,19 +339,17 @@ def run(ctx):
         ok = sym.differs_from_log_abs_by_constant(J, sym.det_jacobian([X, Y], [th, r]), [th, r])
     ctx.ob("R-ALG", "C07.4", fr, "Angle: (angle*scale, r) -> (r cos, r sin); the accumulated log r differs from log|det| of that map by a constant", bool(ok), "")
     fi_ = ang.methods["inverse_reparameterise"]
-    br = find_stmt("x[self.parameters[1]] = sqrt(x_prime[self.prime_parameters[0]] ** 2 + x_prime[self.prime_parameters[1]] ** 2)", fi_.node)
-    ba = find_stmt("x[self.parameters[0]] = $a", fi_.node)
-    bj = [n for n in walk_no_nested(fi_.node) if isinstance(n, ast.AugAssign) and src(n.target) == "log_j"]
-    ok = len(br) == 1 and len(ba) == 2 and len(bj) == 1 and isinstance(bj[0].op, ast.Sub) and match_expr("log(x[self.parameters[1]])", bj[0].value) is not None
-    if ok:
-        S = sym.Sym(positive=False)
-        Xs, Ys = S.symbol("X"), S.symbol("Y")
-        sc_ = sym.Sym().symbol("scale")
-        Rr = sym.sp.sqrt(Xs ** 2 + Ys ** 2)
-        for n_, b in ba:
-            sub = sym.Sym(subst={"x_prime[self.prime_parameters[0]]": Xs, "x_prime[self.prime_parameters[1]]": Ys, "self.scale": sc_}, positive=False)
-            A = sub.conv(b["a"])
-            ok = ok and sym.differs_from_log_abs_by_constant(-sym.sp.log(Rr), sym.det_jacobian([A, Rr], [Xs, Ys]), [Xs, Ys])
+    # path summaries: on every syntactic path, the values finally stored into the two physical fields and the total change
+    # of log_j, with temporaries and helper calls substituted (so one arctan2 shared by both branches, or the named
+    # slots `self.angle` / `self.radial`, read the same)
+    ok, n_paths = True, 0
+    S = sym.Sym(positive=False)
+    Xs, Ys = S.symbol("X"), S.symbol("Y")
+    sc_ = sym.Sym().symbol("scale")
+    for outs_, J_ in _map_paths(fi_, {"x_prime[self.prime_parameters[0]]": Xs, "x_prime[self.prime_parameters[1]]": Ys, "self.scale": sc_}, ["x[self.parameters[0]]", "x[self.parameters[1]]"], passthrough=("_inverse_rescale_angle",)):
+        n_paths += 1
+        ok = ok and all(o_ is not None for o_ in outs_) and sym.is_zero(outs_[1] - sym.sp.sqrt(Xs ** 2 + Ys ** 2)) and sym.differs_from_log_abs_by_constant(J_, sym.det_jacobian(outs_, [Xs, Ys]), [Xs, Ys])
+    ok = ok and n_paths >= 2
     ctx.ob("R-ALG", "C07.4", fi_, "Angle inverse: (x, y) -> (atan2(y, x)/scale, sqrt(x^2+y^2)); the subtracted log r differs from log|det| by a constant (both zero-bound variants)", bool(ok), "")
     ap = prog.cls(APAIR)
     for fw, iv, polar in (("_az_zen", "_inv_az_zen", "sin"), ("_ra_dec", "_inv_ra_dec", "cos")):
@@ -327,23 +366,14 @@ def run(ctx):
             ok = sym.differs_from_log_abs_by_constant(J, sym.det_jacobian(exprs, [h, v, r]), [h, v, r])
         ctx.ob("R-ALG", "C07.4", f, f"AnglePair.{fw}: spherical -> Cartesian; the accumulated 2 log r + log {polar}(polar angle) equals log|det| of the map up to a constant", bool(ok), "")
         g = ap.methods[iv]
-        br = find_stmt("x[self.parameters[2]] = $a", g.node)
-        bh = find_stmt("x[self.parameters[0]] = $a", g.node)
-        bv = find_stmt("x[self.parameters[1]] = $a", g.node)
-        bj = [n for n in walk_no_nested(g.node) if isinstance(n, ast.AugAssign) and src(n.target) == "log_j"]
-        ok = len(br) == 1 and len(bh) == 2 and len(bv) == 1 and len(bj) == 1 and isinstance(bj[0].op, ast.Add)
-        if ok:
-            S = sym.Sym(positive=False)
-            X, Y, Z = S.symbol("X"), S.symbol("Y"), S.symbol("Z")
-            subst = {f"x_prime[self.prime_parameters[{i}]]": s_ for i, s_ in enumerate((X, Y, Z))}
-            sub = sym.Sym(subst=subst, positive=False)
-            Rr = sub.conv(br[0][1]["a"])
-            V = sub.conv(bv[0][1]["a"])
-            sub2 = sym.Sym(subst={**subst, "x[self.parameters[2]]": Rr, "x[self.parameters[1]]": V}, positive=False)
-            J = sub2.conv(bj[0].value)
-            for n_, b in bh:
-                H = sub.conv(b["a"])
-                ok = ok and sym.differs_from_log_abs_by_constant(J, sym.det_jacobian([H, V, Rr], [X, Y, Z]), [X, Y, Z])
+        ok, n_paths = True, 0
+        S = sym.Sym(positive=False)
+        X, Y, Z = S.symbol("X"), S.symbol("Y"), S.symbol("Z")
+        subst = {f"x_prime[self.prime_parameters[{i}]]": s_ for i, s_ in enumerate((X, Y, Z))}
+        for outs_, J_ in _map_paths(g, subst, ["x[self.parameters[0]]", "x[self.parameters[1]]", "x[self.parameters[2]]"], alias={"x[self.parameters[-1]]": "x[self.parameters[2]]"}):
+            n_paths += 1
+            ok = ok and all(o_ is not None for o_ in outs_) and sym.differs_from_log_abs_by_constant(J_, sym.det_jacobian(outs_, [X, Y, Z]), [X, Y, Z])
+        ok = ok and n_paths >= 2
         ctx.ob("R-ALG", "C07.4", g, f"AnglePair.{iv}: Cartesian -> spherical; the accumulated -2 log r - log {polar}(polar angle) equals log|det| of the inverse map up to a constant", bool(ok), "")
     dp = prog.cls("nessai.gw.reparameterisations:DeltaPhaseReparameterisation")
     for m, pat in (("reparameterise", "x_prime[self.prime_parameters[0]] = x[self.parameters[0]] + $t"), ("inverse_reparameterise", "x[self.parameters[0]] = mod(x_prime[self.prime_parameters[0]] - $t, 2 * pi)")):
